@@ -183,6 +183,55 @@ def activate (rec : Option DeployStatus) : Option Unit :=
   | some .waitingForTransfer => some ()
   | _ => none
 
+/-! ## model: a queued message carries a reference a relayer supplied (the valset id of `MsgSetPublicAccessData`); nothing
+checks it at submission, the attestation looks it up (`attestTransactionIntegrity`, x/evm/keeper/attest.go).
+A valset is identified by the id of the snapshot it was built from; `0` is the EMPTY valset (the zero value of the local
+variable whose address the Go code hands on).  A Go pointer is an `Option`: `none` is `nil`. -/
+
+namespace Dangling
+
+/-- `Valset.FindSnapshotByID`: `none` = `ErrNotFound` -/
+def findSnapshot (snaps : List Nat) (id : Nat) : Option Nat :=
+  if snaps.contains id then some id else none
+
+/-- the pointer `attestTransactionIntegrity` hands to `VerifyAgainstTX`: `pad = none` — the message has no public access
+    data; id 0 — no lookup; an id that names no snapshot — "we need to continue": the (address of the) empty valset. -/
+def selectValset (pad : Option Nat) (snaps : List Nat) : Option Nat :=
+  match pad with
+  | none => some 0
+  | some id =>
+    if id = 0 then some 0
+    else
+      match findSnapshot snaps id with
+      | some s => some s
+      | none => some 0
+
+inductive Verdict where
+  | verified | notVerified
+  | panic            -- a nil pointer is dereferenced: nothing recovers between here and `AppModule.EndBlock`
+deriving Repr, DecidableEq
+
+/-- `VerifyAgainstTX` of a message kind that encodes the valset into the expected call data (`usesValset`: logic call,
+    valset update, user contract, handover; a compass upload does not read it).  `builtFor`: the valset the reported
+    transaction's call data was encoded with (`none`: the call data is not an encoding of the message at all). -/
+def verifyAgainst (usesValset : Bool) (valset : Option Nat) (builtFor : Option Nat) : Verdict :=
+  if usesValset then
+    match valset with
+    | none => .panic
+    | some v => if builtFor = some v then .verified else .notVerified
+  else if builtFor.isSome then .verified else .notVerified
+
+def attestIntegrity (usesValset : Bool) (pad : Option Nat) (snaps : List Nat) (builtFor : Option Nat) : Verdict :=
+  verifyAgainst usesValset (selectValset pad snaps) builtFor
+
+/-- the handler the attest loop runs: a verdict other than `verified` is an error VALUE (`none`); a panic has no value at
+    all, which is why `handler` is only defined through `attestIntegrity_never_panics` below: it maps `panic` to `none`
+    too, and the theorem says that this case does not occur. -/
+def handler (usesValset : Bool) (pad : Option Nat) (snaps : List Nat) (builtFor : Option Nat) : Option Unit :=
+  if attestIntegrity usesValset pad snaps builtFor = .verified then some () else none
+
+end Dangling
+
 /-! ## Property theorems (C09) -/
 
 /-- **mulCeil_spec.** When a fee is produced it is exactly `⌈m·v⌉` and fits `uint64`; in every
@@ -454,6 +503,92 @@ theorem vanished_records_are_skipped (s : List Nat) (ms : List (Nat × Option De
   have : activate m.2 = none := (vanished_record_is_an_error_value m.2).mpr (by simpa using hb)
   simp [this]
 
+/-! ### references supplied by a relayer and looked up at attestation time -/
+
+/-- **selected_valset_is_never_nil.** Whatever valset id the public access data names — none, 0, an existing snapshot, an
+id above the snapshot counter, a pruned one — and whatever snapshots exist, `VerifyAgainstTX` is handed a valset, never
+`nil`. -/
+theorem selected_valset_is_never_nil (pad : Option Nat) (snaps : List Nat) :
+    (Dangling.selectValset pad snaps).isSome = true := by
+  unfold Dangling.selectValset
+  cases pad with
+  | none => rfl
+  | some id =>
+    by_cases h0 : id = 0
+    · simp [h0]
+    · simp only [h0, if_false]
+      cases Dangling.findSnapshot snaps id <;> rfl
+
+/-- **dangling_valset_id_selects_the_empty_valset.** An id that names no snapshot is not an error and not a nil pointer: the
+attestation goes on with the empty valset ("a snapshot may not yet exist if the chain is just being added"). -/
+theorem dangling_valset_id_selects_the_empty_valset (id : Nat) (snaps : List Nat) (h : id ∉ snaps) :
+    Dangling.selectValset (some id) snaps = some 0 := by
+  unfold Dangling.selectValset Dangling.findSnapshot
+  by_cases h0 : id = 0
+  · simp [h0]
+  · simp [h0, h]
+
+/-- **known_valset_id_selects_that_snapshot.** -/
+theorem known_valset_id_selects_that_snapshot (id : Nat) (snaps : List Nat) (h : id ∈ snaps) (h0 : id ≠ 0) :
+    Dangling.selectValset (some id) snaps = some id := by
+  unfold Dangling.selectValset Dangling.findSnapshot
+  simp [h0, h]
+
+/-- **attest_integrity_never_panics.** ("no user- or validator-supplied value can halt block production") For every valset
+id a relayer can put into the public access data, every set of snapshots, every kind of message and every reported
+transaction, the integrity check of the attestation ends in a verdict — verified or an error value — never in a panic. -/
+theorem attest_integrity_never_panics (usesValset : Bool) (pad : Option Nat) (snaps : List Nat) (builtFor : Option Nat) :
+    Dangling.attestIntegrity usesValset pad snaps builtFor ≠ .panic := by
+  unfold Dangling.attestIntegrity Dangling.verifyAgainst
+  have h := selected_valset_is_never_nil pad snaps
+  cases hs : Dangling.selectValset pad snaps with
+  | none => simp [hs] at h
+  | some v =>
+    cases usesValset
+    · by_cases hb : builtFor.isSome = true <;> simp [hb]
+    · by_cases hb : builtFor = some v <;> simp [hb]
+
+/-- **attest_integrity_spec.** The verdict is `verified` exactly when the reported call data was encoded with the valset the
+attestation selects (for a kind that does not encode the valset: when it is an encoding of the message at all). -/
+theorem attest_integrity_spec (usesValset : Bool) (pad : Option Nat) (snaps : List Nat) (builtFor : Option Nat) :
+    Dangling.attestIntegrity usesValset pad snaps builtFor = .verified ↔
+      (if usesValset then builtFor = Dangling.selectValset pad snaps else builtFor.isSome = true) := by
+  unfold Dangling.attestIntegrity Dangling.verifyAgainst
+  have h := selected_valset_is_never_nil pad snaps
+  cases hs : Dangling.selectValset pad snaps with
+  | none => simp [hs] at h
+  | some v =>
+    cases usesValset
+    · by_cases hb : builtFor.isSome = true <;> simp [hb]
+    · by_cases hb : builtFor = some v <;> simp [hb]
+
+/-- **dangling_reference_with_foreign_call_data_is_an_error_value.** A message whose public access data names no snapshot and
+whose reported transaction was encoded with a real (non-empty) valset fails with an error value. -/
+theorem dangling_reference_is_an_error_value (id v : Nat) (snaps : List Nat) (h : id ∉ snaps) (hv : v ≠ 0) :
+    Dangling.handler true (some id) snaps (some v) = none := by
+  unfold Dangling.handler Dangling.attestIntegrity Dangling.verifyAgainst
+  rw [dangling_valset_id_selects_the_empty_valset id snaps h]
+  have : ¬ (some v = some 0) := by simpa using hv
+  simp [this]
+
+/-- **dangling_references_are_skipped.** The attest loop over messages each carrying (public access valset id, valset its
+reported transaction was built for): those whose reference names no snapshot while the transaction was built for a real
+valset change nothing; the rest of the queue is handled as if they were not there (instance of
+`failing_message_is_skipped`). -/
+theorem dangling_references_are_skipped (snaps : List Nat) (s : List Nat) (ms : List (Nat × Nat × Nat)) :
+    runLoop (fun (st : List Nat) (m : Nat × Nat × Nat) => (Dangling.handler true (some m.2.1) snaps (some m.2.2)).map fun _ => m.1 :: st) s ms =
+    runLoop (fun (st : List Nat) (m : Nat × Nat × Nat) => (Dangling.handler true (some m.2.1) snaps (some m.2.2)).map fun _ => m.1 :: st) s
+      (ms.filter fun m => !(decide (m.2.1 ∉ snaps) && decide (m.2.2 ≠ 0))) := by
+  apply failing_message_is_skipped
+  intro st m hb
+  simp only [Bool.and_eq_true, decide_eq_true_eq] at hb
+  simp [dangling_reference_is_an_error_value m.2.1 m.2.2 snaps hb.1 hb.2]
+
+/-- **nil_valset_is_a_panic.** The panic outcome is representable: a `VerifyAgainstTX` that reads the valset and is handed
+`nil` does panic, so `attest_integrity_never_panics` is a statement about `selectValset`, not about the encoding. -/
+theorem nil_valset_is_a_panic (builtFor : Option Nat) : Dangling.verifyAgainst true none builtFor = .panic := by
+  simp [Dangling.verifyAgainst]
+
 /-! ### the panic inventory regenerated from the typed source -/
 
 set_option maxRecDepth 100000
@@ -538,5 +673,13 @@ example : Metrix.record 50 20 30 7 (some 9) [4, 9] = (some 9, [4, 9, 7]) := by d
 example : Metrix.record 50 30 20 7 (some 9) [4, 9] = (some 9, [4, 9]) := by decide
 example : runLoop (fun (st : List Nat) (m : Nat × Option DeployStatus) => (activate m.2).map fun _ => m.1 :: st) []
     [(1, none), (2, some .waitingForTransfer), (3, some .failed)] = [2] := by decide
+
+example : Dangling.attestIntegrity true (some 999999) [1, 2, 3] (some 3) = .notVerified := by decide
+example : Dangling.attestIntegrity true (some 999999) [1, 2, 3] (some 0) = .verified := by decide
+example : Dangling.attestIntegrity true (some 2) [1, 2, 3] (some 2) = .verified := by decide
+example : Dangling.attestIntegrity true (some 2) [1, 2, 3] (some 3) = .notVerified := by decide
+example : Dangling.attestIntegrity false (some 999999) [1, 2, 3] none = .notVerified := by decide
+example : runLoop (fun (st : List Nat) (m : Nat × Nat × Nat) => (Dangling.handler true (some m.2.1) [1, 2, 3] (some m.2.2)).map fun _ => m.1 :: st) []
+    [(10, 999999, 3), (11, 3, 3), (12, 2, 3), (13, 4, 0)] = [13, 11] := by decide
 
 end Paloma.NoPanic
